@@ -120,6 +120,14 @@ def check_iter_preorder(run, rule):
     # the generator: nested function or the method itself
     gens = [f for q, f in nm.funcs.items() if q.startswith("Node.__iter__.")] or [it]
     g = gens[0]
+    method_gen = None
+    if g is it:
+        # `return self._descendants()`: the generator is a private method of the class
+        rets0 = [n for n in own_nodes(it.node) if isinstance(n, ast.Return)]
+        if len(rets0) == 1 and isinstance(rets0[0].value, ast.Call) and isinstance(rets0[0].value.func, ast.Attribute) and \
+                common.is_name(rets0[0].value.func.value, it.params[0]) and not rets0[0].value.args and f"Node.{rets0[0].value.func.attr}" in nm.funcs:
+            g = nm.funcs[f"Node.{rets0[0].value.func.attr}"]
+            method_gen = rets0[0].value.func.attr
     par = g.params[0]
     loops = [n for n in g.node.body if isinstance(n, ast.For) and common.is_attr(n.iter, par, "children") and isinstance(n.target, ast.Name)]
     ok_order = ok_rec = False
@@ -137,6 +145,8 @@ def check_iter_preorder(run, rule):
                                                    (isinstance(v.func, ast.Name) and v.func.id == "iter")) \
                     and v.args and common.is_name(v.args[0], ch)
                 rec = rec or common.is_name(v, ch)   # `yield from child` uses child.__iter__
+                rec = rec or (method_gen is not None and isinstance(v, ast.Call) and isinstance(v.func, ast.Attribute) and v.func.attr == method_gen and
+                              common.is_name(v.func.value, ch) and not v.args)      # `yield from child._descendants()`
                 seq.append("from" if rec else "from?")
             else:
                 seq.append("other")
@@ -148,7 +158,7 @@ def check_iter_preorder(run, rule):
            mech="statement-order match in the generator")
     # __iter__ returns the generator applied to self (root excluded)
     rets = [n for n in own_nodes(it.node) if isinstance(n, ast.Return)]
-    if g is not it:
+    if g is not it and method_gen is None:
         okr = len(rets) == 1 and isinstance(rets[0].value, ast.Call) and common.is_name(rets[0].value.func, g.node.name) and \
             len(rets[0].value.args) == 1 and common.is_name(rets[0].value.args[0], it.params[0])
         run.ob(rule, "node.Node.__iter__/starts-at-self", okr, f"{nm.rel}:{it.lineno}", "iteration starts from the node itself",
